@@ -435,6 +435,42 @@ class Exec:
     def st_Pass(self, s, fr):
         pass
 
+    def st_Import(self, s, fr):
+        pass            # function-level imports: names are resolved through the module tables / external hooks
+
+    def st_ImportFrom(self, s, fr):
+        pass
+
+    def st_Match(self, s, fr):
+        """match on value patterns (constants, dotted names such as Enum members), `|` alternatives, capture / wildcard, with
+        optional guards - the subset that is an if/elif chain in disguise."""
+        subject = self.eval(s.subject, fr)
+
+        def matches(pat):
+            if isinstance(pat, ast.MatchValue):
+                return self.truth(self.compare(ast.Eq(), subject, self.eval(pat.value, fr)))
+            if isinstance(pat, ast.MatchSingleton):
+                v = self.concretize(subject)
+                if isinstance(v, Sym):
+                    if v.ty != 'bool' or pat.value is None:
+                        return False
+                    t = self.truth(v)
+                    return t if pat.value is True else not t
+                return v is pat.value
+            if isinstance(pat, ast.MatchOr):
+                return any(matches(q) for q in pat.patterns)
+            if isinstance(pat, ast.MatchAs):
+                if pat.pattern is not None and not matches(pat.pattern):
+                    return False
+                if pat.name is not None:
+                    fr.locals[pat.name] = subject
+                return True
+            raise Unsupported(f'match pattern {type(pat).__name__}')
+        for case in s.cases:
+            if matches(case.pattern) and (case.guard is None or self.truth(self.eval(case.guard, fr))):
+                self.exec_block(case.body, fr)
+                return
+
     def st_Assign(self, s, fr):
         v = self.eval(s.value, fr)
         for t in s.targets:
@@ -673,6 +709,16 @@ class Exec:
     def st_With(self, s, fr):
         if 'with' in self.hooks:
             return self.hooks['with'](self, s, fr)
+        # contextlib.suppress(E1, E2): the body with `except (E1, E2): pass`
+        if len(s.items) == 1 and s.items[0].optional_vars is None:
+            cm = self.concretize(self.eval(s.items[0].context_expr, fr))
+            if isinstance(cm, tuple) and cm and cm[0] == 'contextlib.suppress':
+                try:
+                    self.exec_block(s.body, fr)
+                except PyRaise as pr:
+                    if not any(isinstance(c, ExcClass) and exc_isinstance(pr.exc.clsname, c.name) for c in cm[1]):
+                        raise
+                return
         raise Unsupported('with statement')
 
     def st_AsyncWith(self, s, fr):
@@ -902,6 +948,11 @@ class Exec:
     def sym_cond_value(self, v):
         gs = [g for g, x in v.alts if self._static_truth(x)]
         return mk_bool(z3.Or(*gs)) if gs else False
+
+    def ex_NamedExpr(self, e, fr):
+        v = self.eval(e.value, fr)
+        self.assign(e.target, v, fr)
+        return v
 
     def ex_IfExp(self, e, fr):
         if self.merge:
